@@ -51,12 +51,21 @@ fn is_punct(s: &str) -> bool {
     s.chars().count() == 1 && !s.chars().next().unwrap().is_alphanumeric() && s != "_" && s != "§"
 }
 
-pub fn render(seq: &[&str], glued: bool, out: &mut String) {
+/// Layouts: 0 = space separated, 1 = glued where two punctuations meet, 2 = plain
+/// concatenation (tokens may fuse into other tokens: every string is a legal input here).
+pub const LAYOUTS: usize = 3;
+
+pub fn render(seq: &[&str], layout: usize, out: &mut String) {
     out.clear();
     for (i, t) in seq.iter().enumerate() {
         if i > 0 {
             let prev = seq[i - 1];
-            if !(glued && is_punct(prev) && is_punct(t)) && !prev.ends_with('\n') {
+            let glue = match layout {
+                0 => false,
+                1 => is_punct(prev) && is_punct(t),
+                _ => true,
+            };
+            if !glue && !prev.ends_with('\n') {
                 out.push(' ');
             }
         }
@@ -174,7 +183,7 @@ impl Property for C01 {
         "C01"
     }
     fn rule(&self) -> &'static str {
-        "Streams: (a) bounded-exhaustive token sequences: every sequence of length <= 3 (quick) / <= 4 (thorough) over the full 92-symbol parser-facing alphabet (one lexeme per token kind), each rendered in two layouts (space separated; glued where two punctuations meet) and parsed through both entry points; thorough adds length 5 exhaustively over a 48-symbol class-representative alphabet plus a 2% sample of the full length-5 space (VERIF_C01_LEN5=full: the full space); (b) every prefix of every seed program (built-in seeds, the repository's snippets, corpus), mutated programs, token soups, nesting bombs to depth 256; (c) random hostile UTF-8. One evaluation = one source string pushed through SourceFile::parse and SourceFile::parse_check_lex under a panic hook, hook H1's no-progress assertion and work counters (events, look-ahead steps, allocated bytes). Non-trivial: >= 3 non-trivia tokens. Distinct: fingerprint of (diagnostic count, parser events, consumed tokens, have_parse) for both entry points."
+        "Streams: (a) bounded-exhaustive token sequences: every sequence of length <= 3 (quick) / <= 4 (thorough) over the full 92-symbol parser-facing alphabet (one lexeme per token kind), each rendered in three layouts (space separated; glued where two punctuations meet; plain concatenation) and parsed through both entry points; thorough adds length 5 exhaustively over a 48-symbol class-representative alphabet plus a 2% sample of the full length-5 space (VERIF_C01_LEN5=full: the full space); (b) every prefix of every seed program (built-in seeds, the repository's snippets, corpus), mutated programs, token soups, nesting bombs to depth 256; (c) random hostile UTF-8. One evaluation = one source string pushed through SourceFile::parse and SourceFile::parse_check_lex under a panic hook, hook H1's no-progress assertion and work counters (events, look-ahead steps, allocated bytes). Non-trivial: >= 3 non-trivia tokens. Distinct: fingerprint of (diagnostic count, parser events, consumed tokens, have_parse) for both entry points."
     }
     fn streams(&self, tier: Tier, seed: u64) -> Vec<Stream> {
         let mut v = seq_streams(tier);
@@ -210,8 +219,8 @@ impl Property for C01 {
                     seq.push(&al[(kk % n) as usize]);
                     kk /= n;
                 }
-                for glued in [false, true] {
-                    render(&seq, glued, &mut s);
+                for layout in 0..LAYOUTS {
+                    render(&seq, layout, &mut s);
                     let before = obs.violations.len();
                     check_string(&s, obs, true);
                     count += 1;
@@ -222,7 +231,7 @@ impl Property for C01 {
                 }
             }
             obs.count_n("token-sequence-renderings", count);
-            obs.note = format!("block of {count} renderings (sequences of length {len}, two layouts), e.g. {s:?}");
+            obs.note = format!("block of {count} renderings (sequences of length {len}, three layouts), e.g. {s:?}");
             return;
         }
         obs.inconclusive("unrecognised input spec");
